@@ -5,6 +5,7 @@ import (
 	"go/token"
 	"go/types"
 	"os"
+	"sort"
 	"strings"
 
 	"golang.org/x/tools/go/ssa"
@@ -303,7 +304,8 @@ func claimPairing(c *Ctx) {
 			continue
 		}
 		feePay, recvPay := feePays[0], recvPays[0]
-		fee, rcv := one(feePay.E), one(recvPay.E)
+		// (what the payouts are when they execute: a verdict helper's empty results for the verdicts the step turns away do not count)
+		fee, rcv := one(feePay.R), one(recvPay.R)
 		split := func(e *ir.Expr, idx string) *ir.Expr {
 			if e.Op == "res" && e.Name == idx && calleeIs(e.Args[0], "types.CalculateValidatorFee") {
 				return e.Args[0]
@@ -331,7 +333,7 @@ func claimPairing(c *Ctx) {
 		isStreamWrite := func(e ir.Effect) bool { return e.Kind == "StoreWrite" && e.Section == secStreams }
 		sets := instantiate(c, f, isStreamWrite, func(e ir.Effect) *ir.Expr { return marshalArg(c, e) })
 		for _, s := range sets {
-			st := s.E
+			st := s.R
 			dep := canon(fieldOfStruct(st, "Deposit"))
 			ok := dep != nil && okTotal && dep.Op == "res" && dep.Name == "1" && dep.Args[0].String() == total.Args[0].String()
 			r.Require(ok, "A3.claim-pairing", key+"|deposit:=remaining", pos(c, s.Eff.Site), "the stored Deposit is the remaining-deposit result of the same claim computation", fmt.Sprint(dep))
@@ -1139,7 +1141,12 @@ func streamScope(c *Ctx) []*ssa.Function {
 func streamHazards(c *Ctx) {
 	w, r := c.W, c.R
 	nf, nm := 0, 0
-	durOrd := map[string]int{}
+	type durObl struct {
+		ok               bool
+		at, detail, what string
+	}
+	durAgg := map[string]*durObl{}
+	var durKeys []string
 	for _, f := range streamScope(c) {
 		for _, e := range w.EffectsOf(f) {
 			if e.Kind == "Float" {
@@ -1194,11 +1201,22 @@ func streamHazards(c *Ctx) {
 								}
 								lifted++
 								sig := sourceSignature(c, w.ExpandKeep(up.E, 6, ir.TypesVocabulary))
+								// one obligation per operation and per what is multiplied, however many places spell the product
+								// (the branches of a switch may each carry a copy)
 								k2 := h.Name() + "|" + sig
-								durOrd[k2]++
-								k2 = fmt.Sprintf("%s|#%d", k2, durOrd[k2])
 								g := chainGuarded(c, h, up.Chain, in, bound(up.E.Args[0].String(), up.E.Args[1].String()), 0)
-								r.Require(g, rule, k2, pos(c, in), what, "unguarded "+w.ExprOf(x).String()+" in "+fn(f))
+								d := durAgg[k2]
+								if d == nil {
+									d = &durObl{ok: true, at: pos(c, in)}
+									durAgg[k2] = d
+									durKeys = append(durKeys, k2)
+								}
+								if !g {
+									d.ok = false
+									d.detail = "unguarded " + w.ExprOf(x).String() + " in " + fn(f)
+									d.at = pos(c, in)
+								}
+								d.what = what
 							}
 						}
 						if lifted > 0 {
@@ -1227,6 +1245,11 @@ func streamHazards(c *Ctx) {
 				}
 			}
 		}
+	}
+	sort.Strings(durKeys)
+	for _, k2 := range durKeys {
+		d := durAgg[k2]
+		r.Require(d.ok, "A9.duration-mul", k2, d.at, d.what, d.detail)
 	}
 	r.Analysed["float_sites_in_stream_scope"] = nf
 	r.Floor("int64/Duration products in stream scope", nm, 1)
@@ -1293,6 +1316,22 @@ func C12(c *Ctx) {
 		for _, b := range f.Blocks {
 			for _, in := range b.Instrs {
 				if _, ok := in.(*ssa.Panic); ok {
+					// a panic no path of the call-expanded view reaches (the arm after an exhaustive switch on a verdict
+					// enumeration: the walk knows which constants the verdict helper returns) is not on a message route
+					reachable := false
+					for _, root := range w.Roots["MSG:stream"] {
+						if _, in2 := w.Reachable([]*ssa.Function{root})[f]; !in2 {
+							continue
+						}
+						site := in
+						if w.FlatReaches(w.FlatRoot(root), nil, nil, func(p ir.FPos) bool { return p.In == site }) != nil {
+							reachable = true
+						}
+					}
+					if !reachable && c.Rooted(f) {
+						r.OK("A10.explicit-panic", fn(f)+"|dead", pos(c, in), "panic statement not reachable on any stream message route (exhaustive verdict switch)")
+						continue
+					}
 					r.Bad("A10.explicit-panic", fn(f), pos(c, in), "no explicit panic on a stream message route", "panic statement")
 					continue
 				}
@@ -1463,22 +1502,36 @@ func panicGuard(c *Ctx, f *ssa.Function, call *ssa.Call, e *ir.Expr, kind string
 			return false
 		}
 		amountOf := func(coin *ir.Expr) func(*ir.Expr) bool {
+			cs := w.Expand(coin, 4).String()
 			return func(x *ir.Expr) bool {
-				return x.Op == "field" && x.Name == "Amount" && x.Args[0].String() == coin.String()
+				// (the comparison may stand in the helper that sized the claim: both sides are compared fully resolved)
+				return x.Op == "field" && x.Name == "Amount" && (x.Args[0].String() == coin.String() || w.Expand(x.Args[0], 4).String() == cs)
 			}
+		}
+		a0, a1 := e.Args[0], e.Args[1]
+		if args := call.Common().Args; len(args) == 2 {
+			// what the operands can be when the call executes (a verdict helper may hand back the claim together with the
+			// verdict the caller switched on: only the alternatives that agree with that verdict count)
+			a0, a1 = valueAtSite(c, f, call, args[0]), valueAtSite(c, f, call, args[1])
 		}
 		return w.Guarded(f, call, func(p ir.Pred) bool {
 			// a > b or a >= b, written with any of the sdk.Int comparison methods, in either polarity / operand order
-			return intCmpIs(p, ">", amountOf(e.Args[0]), amountOf(e.Args[1])) || intCmpIs(p, ">=", amountOf(e.Args[0]), amountOf(e.Args[1]))
+			return intCmpIs(p, ">", amountOf(a0), amountOf(a1)) || intCmpIs(p, ">=", amountOf(a0), amountOf(a1))
 		}, 0)
 	case "same-denom":
-		return w.Guarded(f, call, func(p ir.Pred) bool {
-			return cmpIs(p, "==", func(a *ir.Expr) bool {
-				return a.Op == "field" && a.Name == "Denom" && len(e.Args) == 2 && a.Args[0].String() == e.Args[1].String()
-			}, func(b *ir.Expr) bool {
-				return b.Op == "field" && b.Name == "Denom"
-			})
-		}, 0)
+		if len(e.Args) != 2 {
+			return false
+		}
+		mk := func(ops []*ir.Expr) ir.Matcher {
+			return func(p ir.Pred) bool {
+				return cmpIs(p, "==", func(a *ir.Expr) bool {
+					return a.Op == "field" && a.Name == "Denom" && a.Args[0].String() == ops[1].String()
+				}, func(b *ir.Expr) bool {
+					return b.Op == "field" && b.Name == "Denom"
+				})
+			}
+		}
+		return guardedUp(c, f, call, e.Args, mk, w.Roots["MSG:stream"])
 	case "seconds>=0":
 		// amount = NewInt(seconds).Mul(NewInt(flowRate)) with seconds clamped to >= 0 on every path
 		if len(e.Args) != 2 {
